@@ -279,4 +279,113 @@ std::string run_case(Src& s, CaseInfo& ci)
   return failure;
 }
 
-std::vector<FixedCase> fixed_cases() { return {}; }
+// Process scans (yr_scanner_scan_proc) inside a history.  The generated histories do not contain them (a process
+// scan with generated rules can take minutes under ASan); these fixed histories scan an idle /bin/sleep child with
+// a small rule set.  The scanner's flags and timeout are set once, right after creation, and never touched again
+// (skip_set), the way an application does it - so a flag that a process scan leaves behind is not overwritten by
+// the harness before the next scan.
+static const char* PROC_RULES =
+    "import \"pe\"\nimport \"elf\"\n"
+    "rule pe_ep_is_file_offset { condition: pe.is_pe and pe.entry_point == pe.rva_to_offset(pe.entry_point_raw) }\n"
+    "rule pe_ep_is_rva { condition: pe.is_pe and pe.entry_point == pe.entry_point_raw }\n"
+    "rule ep_is_pe_ep { condition: entrypoint == pe.entry_point }\n"
+    "rule ep_is_elf_ep { condition: entrypoint == elf.entry_point }\n"
+    "rule elf_ep_in_file { condition: defined elf.entry_point and elf.entry_point < filesize }\n"
+    "rule elf_ep_is_va { condition: defined elf.entry_point and elf.entry_point >= 0x10000 }\n"
+    "rule mz { strings: $a = \"MZ\" condition: $a at 0 }\n"
+    "rule elfmagic { strings: $h = { 7F 45 4C 46 } condition: #h > 0 }\n"
+    "rule fsize { condition: filesize > 0 }\n";
+
+static std::string proc_history(CaseInfo& ci, int proc_script_action, int proc_script_k, int proc_timeout_flags, bool bad_pid)
+{
+  ci.desc = strf("rules: PROC_RULES (props/c10.cpp); scanner flags/timeout set once; process scan of %s "
+                 "(callback reply %d at message %d, flags %d); then PE, ELF, PE2 scanned from memory and from a file "
+                 "without touching the flags again; each compared with a fresh scanner",
+                 bad_pid ? "a pid that does not exist" : "an idle /bin/sleep child", proc_script_action, proc_script_k,
+                 proc_timeout_flags);
+  Rules R;
+  std::vector<SourceUnit> units = {SourceUnit{"default", PROC_RULES, YS_ADD_STRING}};
+  CompileResult cr = compile_units(units, R, {});
+  if (cr.errors || cr.rc)
+    return "PROC_RULES rejected: " + cr.diag;
+  int pid = bad_pid ? 0x3ffffff0 : ys_spawn_idle();
+  if (pid < 0)
+  {
+    ys_rules_free(R.r);
+    R.r = nullptr;
+    ci.discard = "could not spawn /bin/sleep";
+    return "";
+  }
+  int err = 0;
+  ys_scanner* sc = ys_scanner_new(R.r, &err);
+  ys_scanner_set_flags(sc, proc_timeout_flags);
+  ys_scanner_set_timeout(sc, 60);
+  std::string failure;
+  auto scan = [&](ys_scanner* s, int entry, const bytes& b, int action, int k) {
+    ys_scan_opts o;
+    memset(&o, 0, sizeof o);
+    o.entry = entry;
+    o.skip_set = 1;
+    o.with_strings = 1;
+    o.script_action = action;
+    o.script_k = k;
+    o.pid = pid;
+    char* t = nullptr;
+    ys_scan(R.r, s, (const uint8_t*) b.data(), b.size(), &o, &t);
+    std::string r = t;
+    ys_free(t);
+    return r;
+  };
+  std::string ptrace = scan(sc, YS_SCAN_PROC, "", proc_script_action, proc_script_k);
+  // what the process scan itself must look like
+  std::string last = ptrace.substr(ptrace.rfind("R ") == std::string::npos ? 0 : ptrace.rfind("R "));
+  if (bad_pid && last == "R 0\n")
+    failure = "process scan of a pid that does not exist reported success";
+  if (!bad_pid && proc_script_action == 0 && last != "R 0\n")
+  {
+    // ptrace may be forbidden in some sandboxes: then the process entry point cannot be exercised here
+    ci.discard = "process scan not permitted here: " + last;
+  }
+  if (!bad_pid && proc_script_action == 2 && last == "R 0\n")
+    failure = "process scan whose callback returned CALLBACK_ERROR reported success";
+  const bytes* bufs[] = {&g_samples.pe, &g_samples.elf, &g_samples.pe2};
+  const char* names[] = {"PE", "ELF", "PE2"};
+  for (int round = 0; round < 2 && failure.empty(); round++)
+    for (int b = 0; b < 3 && failure.empty(); b++)
+    {
+      int entry = round == 0 ? YS_SCAN_MEM : YS_SCAN_FILE;
+      std::string got = scan(sc, entry, *bufs[b], 0, 0);
+      ys_scanner* fresh = ys_scanner_new(R.r, &err);
+      ys_scanner_set_flags(fresh, proc_timeout_flags);
+      ys_scanner_set_timeout(fresh, 60);
+      std::string want = scan(fresh, entry, *bufs[b], 0, 0);
+      ys_scanner_free(fresh);
+      ci.sub_evals++;
+      if (got != want)
+        failure = strf("after a process scan that ended with %s, the scan of %s (entry %d) on the same scanner differs "
+                       "from the same scan on a fresh scanner:\n--- reused\n%s--- fresh\n%s",
+                       last.c_str(), names[b], entry, got.substr(0, 1500).c_str(), want.substr(0, 1500).c_str());
+    }
+  ys_scanner_free(sc);
+  if (!bad_pid)
+    ys_kill_idle(pid);
+  ys_rules_free(R.r);
+  R.r = nullptr;
+  if (failure.empty() && leak_check_now())
+    failure = "memory leaked by this scan history (LeakSanitizer)";
+  ci.nontrivial = ci.discard.empty();
+  ci.classes.push_back("process-scan-in-history");
+  return failure;
+}
+
+std::vector<FixedCase> fixed_cases()
+{
+  std::vector<FixedCase> v;
+  v.push_back({"proc-scan-ok-then-files", [](CaseInfo& ci) { return proc_history(ci, 0, 0, 0, false); }, ""});
+  v.push_back({"proc-scan-callback-error-then-files", [](CaseInfo& ci) { return proc_history(ci, 2, 1, 0, false); }, ""});
+  v.push_back({"proc-scan-callback-error-late-then-files", [](CaseInfo& ci) { return proc_history(ci, 2, 3, 0, false); }, ""});
+  v.push_back({"proc-scan-aborted-then-files", [](CaseInfo& ci) { return proc_history(ci, 1, 2, 0, false); }, ""});
+  v.push_back({"proc-scan-fast-mode-error-then-files", [](CaseInfo& ci) { return proc_history(ci, 2, 2, 1, false); }, ""});
+  v.push_back({"proc-scan-bad-pid-then-files", [](CaseInfo& ci) { return proc_history(ci, 0, 0, 0, true); }, ""});
+  return v;
+}
